@@ -201,7 +201,9 @@ def run_unit(unit, rng, ctx):
                 present = list(dict.fromkeys(live.names))
                 k = int(rng.integers(1, len(present) + 1))
                 chosen = [str(x) for x in rng.choice(present, size=k, replace=False)]
-                arg = chosen[0] if (len(chosen) == 1 and rng.integers(2)) else (tuple(chosen) if rng.integers(2) else list(chosen))
+                form = int(rng.integers(6))
+                arg = chosen[0] if (len(chosen) == 1 and form < 2) else [tuple(chosen), list(chosen), set(chosen), frozenset(chosen), dict.fromkeys(chosen).keys(), tuple(chosen)][form]
+                ctx.count(f'filter_argument:{type(arg).__name__}')
                 new = o.filter(arg)
                 mask = np.array([n in chosen for n in live.names])
                 pool.append(Live(new, live.P[:, mask], [n for n in live.names if n in chosen], m, dt, live.meta, f'{live.origin}.filter({arg!r})'))
